@@ -16,6 +16,9 @@ tier = tier.replace("_gen", "")
 cases = fixrun.universe(tier, 0, 0, 0, full=True)
 if gen_only:
     cases = [c for c in cases if "gen" in c]
+if os.environ.get("SWEEP_FILES"):
+    ff = os.environ["SWEEP_FILES"].split(",")
+    cases = [c for c in cases if ("gen" in c and "gen" in ff) or any(x in c.get("file", "") for x in ff if x != "gen")]
 if os.environ.get("SWEEP_KINDS"):
     kk = set(os.environ["SWEEP_KINDS"].split(","))
     cases = [c for c in cases if c.get("variant") and any(k in kk for k, _ in c["variant"])]
